@@ -114,6 +114,10 @@ enum Dest {
     NoParent,
     /// destination absent, reached through a symlinked parent directory
     SymParent,
+    /// destination absent, file name 247 bytes long: the temp sibling's name is exactly NAME_MAX (255) — fine
+    Name247,
+    /// … 250 bytes: the destination's name is legal, the temp sibling's is too long: it cannot be created
+    Name250,
 }
 impl Dest {
     fn stale(self) -> bool {
@@ -122,7 +126,7 @@ impl Dest {
     fn base(self) -> Dest {
         match self {
             Dest::OldStale => Dest::Old,
-            Dest::NoneStale | Dest::NoParent | Dest::SymParent => Dest::None,
+            Dest::NoneStale | Dest::NoParent | Dest::SymParent | Dest::Name247 | Dest::Name250 => Dest::None,
             d => d,
         }
     }
@@ -248,6 +252,8 @@ impl Script {
                 Dest::NoneStale => "nones",
                 Dest::NoParent => "noparent",
                 Dest::SymParent => "symparent",
+                Dest::Name247 => "name247",
+                Dest::Name250 => "name250",
             },
             match &self.dec {
                 Dec::Na => "-".to_string(),
@@ -306,6 +312,8 @@ impl Script {
                     "nones" => Dest::NoneStale,
                     "noparent" => Dest::NoParent,
                     "symparent" => Dest::SymParent,
+                    "name247" => Dest::Name247,
+                    "name250" => Dest::Name250,
                     _ => Dest::Dir,
                 },
                 dec: match w[8] {
@@ -343,7 +351,7 @@ impl Script {
     /// SPECIFICATION (property text, evaluated here independently of the Lean model): the content that
     /// must be published; `None` = the script is a failing one and nothing may be published.
     fn expected_content(&self) -> Option<Vec<u8>> {
-        if self.open != Open::Ok || !self.puller.tags_ok(self.zstd, self.beve) || self.dest == Dest::Dir || self.dest == Dest::NoParent || self.sync_fault {
+        if self.open != Open::Ok || !self.puller.tags_ok(self.zstd, self.beve) || self.dest == Dest::Dir || self.dest == Dest::NoParent || self.dest == Dest::Name250 || self.sync_fault {
             return None;
         }
         if self.puller.verifies() && !self.verify_ok {
@@ -462,7 +470,7 @@ fn write_fragmented(s: &mut TcpStream, b: &[u8], st: u64) -> bool {
     let mut cuts: Vec<usize> = match mode {
         1 if b.len() <= (if THOROUGH.load(Ordering::Relaxed) { 20_000 } else { 400 }) => (1..b.len()).collect(),
         1 | 4 => (1..b.len()).filter(|i| i % 1460 == 0).collect(),
-        2 | 3 | 5 => {
+        2 | 3 | 5 | 6 | 7 => {
             let cands = [1 + rng.below(47) as usize, 48, 48 + 1, 49 + rng.below(b.len().max(50) as u64 - 49) as usize, b.len().saturating_sub(1)];
             let k = 1 + rng.below(2) as usize;
             (0..k).map(|_| *rng.pick(&cands)).filter(|c| *c > 0 && *c < b.len()).collect()
@@ -478,7 +486,10 @@ fn write_fragmented(s: &mut TcpStream, b: &[u8], st: u64) -> bool {
         }
         at = c;
         // (per frame with a small probability: streams of thousands of frames must stay cheap)
-        if at < b.len() && ((mode == 3 && rng.below(12) == 0) || (mode == 5 && rng.below(48) == 0)) {
+        if at < b.len() && mode >= 6 && rng.below(3) == 0 {
+            // a delivery that stops in the middle of a frame for longer than any plausible read timer
+            std::thread::sleep(Duration::from_millis(if mode == 6 { 350 } else { 1100 }));
+        } else if at < b.len() && ((mode == 3 && rng.below(12) == 0) || (mode == 5 && rng.below(48) == 0)) {
             std::thread::sleep(Duration::from_millis(if mode == 5 { 60 } else { 2 }));
         }
     }
@@ -549,7 +560,9 @@ fn answer(f: &RawFrame, reg: &Reg, ids: &AtomicU64, streams: &mut HashMap<u64, A
                     styled(frame(f.h.id, 0, ((st >> 13) & 1) as u16, q, ((st >> 14) & 1) as u16, &b), st)
                 }
                 Resp::Error => {
-                    let ec = [9u32, 1, 5, 4096, 77, 3][((st >> 5) & 7) as usize % 6];
+                    // bits 35-39: a sweep of every ErrorCode (and some that are none) a peer can answer with
+                    let sweep = [1u32, 2, 3, 4, 5, 6, 7, 8, 9, 10, 4095, 4096, 4097, 65535, 1 << 31, u32::MAX];
+                    let ec = if (st >> 35) & 31 != 0 { sweep[((st >> 35) & 31) as usize % sweep.len()] } else { [9u32, 1, 5, 4096, 77, 3][((st >> 5) & 7) as usize % 6] };
                     let body: &[u8] = if (st >> 8) & 1 == 1 { &[0xff, 0xfe, 0x00, 0x80] } else { b"producer failed" };
                     styled(frame(f.h.id, ec, 0, b"", 3, body), st)
                 }
@@ -666,6 +679,27 @@ fn rej() -> RepeError {
     RepeError::Io(std::io::Error::other("verification rejected"))
 }
 
+/// every `RepeError` variant a caller's `verify` / consumer can hand back (an error is an error)
+fn rej_variant(i: u64) -> RepeError {
+    use repe::ErrorCode as C;
+    match i % 14 {
+        0 => RepeError::VersionMismatch(9),
+        1 => RepeError::InvalidSpec(0),
+        2 => RepeError::InvalidHeaderLength(0),
+        3 => RepeError::LengthMismatch { expected: 1, got: 2 },
+        4 => RepeError::BufferTooSmall { need: 1, have: 0 },
+        5 => RepeError::ResponseIdMismatch { expected: 1, got: 2 },
+        6 => RepeError::Io(std::io::Error::new(std::io::ErrorKind::UnexpectedEof, "eof")),
+        7 => RepeError::Io(std::io::Error::new(std::io::ErrorKind::Interrupted, "interrupted")),
+        8 => RepeError::Json(serde_json::from_str::<u8>("x").unwrap_err()),
+        9 => RepeError::UnknownEnumValue(0),
+        10 => RepeError::ServerError { code: C::Ok, message: String::new() },
+        11 => RepeError::ServerError { code: C::Timeout, message: "t".into() },
+        12 => RepeError::ServerError { code: C::ApplicationErrorBase, message: "a".into() },
+        _ => rej(),
+    }
+}
+
 /// Call the real puller. `seen` records what the caller-supplied `verify` was handed.
 /// Every `io::ErrorKind` a caller's source / sink / body may fail with (an error is an error: none of them
 /// may read as "end of input"). `Interrupted` is the one kind `io::copy` / `write_all` retry by contract.
@@ -769,15 +803,17 @@ struct Knobs {
     via_ps: bool,
     digest_mode: u8,
     digest_kind: std::io::ErrorKind,
+    /// which `RepeError` variant a rejecting verify returns (style bits 31-34)
+    rej_variant: u64,
 }
 impl Default for Knobs {
     fn default() -> Knobs {
-        Knobs { verify_ok: false, verify_kind: 0, dfault: None, via_ps: false, digest_mode: 0, digest_kind: std::io::ErrorKind::Other }
+        Knobs { verify_ok: false, verify_kind: 0, dfault: None, via_ps: false, digest_mode: 0, digest_kind: std::io::ErrorKind::Other, rej_variant: 13 }
     }
 }
 impl Knobs {
     fn of(sc: &Script) -> Knobs {
-        Knobs { verify_ok: sc.verify_ok, verify_kind: sc.verify_kind, dfault: sc.dfault, via_ps: sc.via_ps, digest_mode: ((sc.style >> 21) & 3) as u8, digest_kind: KINDS[((sc.style >> 25) & 63) as usize % (KINDS.len() - 1)].1 }
+        Knobs { verify_ok: sc.verify_ok, verify_kind: sc.verify_kind, dfault: sc.dfault, via_ps: sc.via_ps, digest_mode: ((sc.style >> 21) & 3) as u8, digest_kind: KINDS[((sc.style >> 25) & 63) as usize % (KINDS.len() - 1)].1, rej_variant: if (sc.style >> 31) & 15 == 0 { 13 } else { ((sc.style >> 31) & 15) - 1 } }
     }
 }
 
@@ -789,7 +825,7 @@ fn verify_behaviour(k: Knobs) -> Result<(), RepeError> {
         4 => std::thread::sleep(Duration::from_millis(40)),
         _ => {}
     }
-    if k.verify_ok { Ok(()) } else { Err(rej()) }
+    if k.verify_ok { Ok(()) } else { Err(rej_variant(k.rej_variant)) }
 }
 
 /// Call the real puller on `conn`. `seen` records what the caller-supplied `verify` was handed.
@@ -923,6 +959,11 @@ fn tmp_present(dest: &Path) -> bool {
 fn prepare(dir: &Path, d: Dest) -> PathBuf {
     let _ = std::fs::remove_dir_all(dir);
     std::fs::create_dir_all(dir).expect("case dir");
+    match d {
+        Dest::Name247 => return prepare_named(dir, &format!("{}.bin", "n".repeat(243)), d),
+        Dest::Name250 => return prepare_named(dir, &format!("{}.bin", "n".repeat(246)), d),
+        _ => {}
+    }
     prepare_named(dir, "out.bin", d)
 }
 
@@ -995,6 +1036,16 @@ fn oracles(out: &mut Out, sc: &Script, o: &Obs, op: &str) {
     let p = sc.puller.name();
     let exp = sc.expected_content();
     let ops = [op.to_string()];
+    // a destination whose temp sibling's name would be too long: failing cleanly is what the code does; a tree
+    // that found another temp name and published the complete content would not break the property either
+    if sc.dest == Dest::Name250 && o.ok {
+        let alt = (Script { dest: Dest::None, ..sc.clone() }).expected_content();
+        if let (Some(c), DestState::New(b)) = (&alt, &o.dest) {
+            if b == c && !o.tmp {
+                return;
+            }
+        }
+    }
     match (&exp, o.ok) {
         (None, true) => out.oracle_fail(&format!("commit.{p}.ok-on-failing-script"), "the pull returned Ok although the script is a failing one (producer error / cut / rejected / short / incompatible / write refused)", &ops),
         (Some(_), false) => out.oracle_fail(&format!("commit.{p}.err-on-complete-stream"), "the pull returned Err although the whole stream arrived and verification accepted", &ops),
@@ -1016,7 +1067,7 @@ fn oracles(out: &mut Out, sc: &Script, o: &Obs, op: &str) {
         ),
     }
     // a pull that fails before it creates its temp file cannot be blamed for a stale one
-    let never_created = sc.open != Open::Ok || !sc.puller.tags_ok(sc.zstd, sc.beve) || sc.dest == Dest::NoParent;
+    let never_created = sc.open != Open::Ok || !sc.puller.tags_ok(sc.zstd, sc.beve) || sc.dest == Dest::NoParent || sc.dest == Dest::Name250;
     if o.panicked && !(sc.verify_panics || matches!(sc.dfault, Some((_, true))) || sc.trailer > isize::MAX as usize) {
         out.oracle_fail(&format!("commit.{p}.panic"), "the pull panicked although no caller-supplied code does", &ops);
     }
@@ -1060,7 +1111,7 @@ fn obs_line(idx: &str, sc: &Script, o: &Obs) -> String {
 }
 
 struct Ctx {
-    rt: tokio::runtime::Runtime,
+    rt: Arc<tokio::runtime::Runtime>,
     fake: Fake,
     work: PathBuf,
     exe: PathBuf,
@@ -1069,6 +1120,8 @@ struct Ctx {
     /// what a concurrent observer of the destination saw that was neither old nor complete (last in-process pull)
     last_watch: Option<String>,
     watch_reads: u64,
+    /// the last in-process pull did not return within its watchdog
+    last_hung: bool,
     /// fsync on /dev/null fails here, so a sync fault can be planted
     syncfault_ok: bool,
     /// also kill on entry to the N-th write(2) of any thread, sockets included (thorough tier)
@@ -1119,7 +1172,12 @@ impl Ctx {
                 }));
             }
         }
-        let r = catch(|| call_puller(&self.rt, sc.puller, addr, resource, &dest, sc.trailer, Knobs::of(sc), seen.clone(), ws));
+        let r = {
+            let (rt, p, res, d, tr, k, sn) = (self.rt.clone(), sc.puller, resource.to_string(), dest.clone(), sc.trailer, Knobs::of(sc), seen.clone());
+            guarded(bound_for(sc), move || catch(|| call_puller(&rt, p, addr, &res, &d, tr, k, sn, ws)))
+        };
+        self.last_hung = r.is_none();
+        let r = r.unwrap_or(Ok(Err(rej())));
         WS_LIMIT.store(0, Ordering::Relaxed);
         stop.store(true, Ordering::Relaxed);
         for w in watchers {
@@ -1163,6 +1221,9 @@ impl Ctx {
         let o = self.run_inproc(sc, self.fake.addr, &name);
         self.fake.unregister(&name);
         oracles(out, sc, &o, &op);
+        if self.last_hung {
+            out.oracle_fail(&format!("commit.{}.call-never-returned", sc.puller.name()), "the peer answered every request (or closed), yet the pull neither returned a result nor an error within its watchdog", &[op.clone()]);
+        }
         if let Some(bad) = self.last_watch.take() {
             out.oracle_fail(&format!("commit.observer.{}.saw-neither-old-nor-complete", sc.puller.name()), &format!("a thread reading the destination while the pull ran saw {bad}"), &[op.clone()]);
         }
@@ -1196,6 +1257,10 @@ impl Ctx {
         }
         self.fake.unregister(&name);
         let w = words(&so);
+        if status.is_none() {
+            EXPIRIES.fetch_add(1, Ordering::Relaxed);
+            out.oracle_fail(&format!("commit.{}.call-never-returned", sc.puller.name()), "the pulling child (write fault injected) did not finish within 60 s", &[op.to_string()]);
+        }
         if status.is_none() || w.len() < 6 || (w[1] != "ok" && w[1] != "err") {
             out.count("wfault.child-did-not-finish");
             let _ = std::fs::remove_dir_all(&dir);
@@ -1237,7 +1302,10 @@ impl Ctx {
             *l2.lock().unwrap() = v;
         }));
         let seen = Arc::new(Mutex::new(Seen::default()));
-        let r = call_puller(&self.rt, Puller::Trailer, self.fake.addr, &res, &dest, 7, Knobs { verify_ok: true, ..Knobs::default() }, seen, None);
+        let r = {
+            let (rt, addr, res2, d2) = (self.rt.clone(), self.fake.addr, res.clone(), dest.clone());
+            guarded(25, move || call_puller(&rt, Puller::Trailer, addr, &res2, &d2, 7, Knobs { verify_ok: true, ..Knobs::default() }, seen, None)).unwrap_or(Err(rej()))
+        };
         self.fake.unregister(&res);
         *VERIFY_HOOK.lock().unwrap() = None;
         let l = listing.lock().unwrap().clone();
@@ -1279,7 +1347,10 @@ impl Ctx {
             }));
         }
         let seen = Arc::new(Mutex::new(Seen::default()));
-        let r = call_puller(&self.rt, a.puller, self.fake.addr, &ra, &da, a.trailer, Knobs::of(a), seen.clone(), None);
+        let r = {
+            let (rt, addr, ra2, da2, a2, sn) = (self.rt.clone(), self.fake.addr, ra.clone(), da.clone(), a.clone(), seen.clone());
+            guarded(40, move || call_puller(&rt, a2.puller, addr, &ra2, &da2, a2.trailer, Knobs::of(&a2), sn, None)).unwrap_or(Err(rej()))
+        };
         *VERIFY_HOOK.lock().unwrap() = None;
         self.fake.unregister(&ra);
         self.fake.unregister(&rb);
@@ -1361,7 +1432,8 @@ impl Ctx {
             self.fake.unregister(n);
         }
         if res.len() < steps.len() {
-            out.count("seq.did-not-finish(a call on a dead client hung?)");
+            EXPIRIES.fetch_add(1, Ordering::Relaxed);
+            out.oracle_fail(&format!("commit.seq.{}.call-never-returned", steps[res.len()].puller.name()), &format!("step {} of a sequence on one client did not return within 40 s", res.len() + 1), &[op.clone()]);
             return;
         }
         let _ = std::fs::remove_dir_all(&dir);
@@ -1400,9 +1472,179 @@ fn ob_clone(o: &Obs) -> Obs {
     Obs { panicked: false, ok: o.ok, dest: o.dest.clone(), tmp: o.tmp, seen: o.seen.clone() }
 }
 
+/// The public entry points of the anchored file in the tree under test, read from its source.
+fn source_entry_points() -> Vec<String> {
+    let repo = std::env::var("VERIF_REPO").unwrap_or_else(|_| "/repo".into());
+    let text = std::fs::read_to_string(Path::new(&repo).join("src").join("value_stream.rs")).unwrap_or_default();
+    let text = text.split("#[cfg(test)]").next().unwrap_or("").to_string();
+    let mut names: Vec<String> = vec![];
+    let mut in_trait = false;
+    for line in text.lines() {
+        let t = line.trim_start();
+        if t.starts_with("pub trait ") {
+            in_trait = true;
+        } else if line.starts_with('}') {
+            in_trait = false;
+        }
+        for pre in ["pub async fn ", "pub fn "].iter().chain(if in_trait { ["async fn ", "fn "].iter() } else { [].iter() }) {
+            if let Some(rest) = t.strip_prefix(pre) {
+                let name: String = rest.chars().take_while(|c| c.is_alphanumeric() || *c == '_').collect();
+                if !name.is_empty() && !names.contains(&name) {
+                    names.push(name);
+                }
+            }
+        }
+    }
+    names
+}
+
+/// entry points this family drives (the 18 pull functions, the producer registrars) …
+const DRIVEN: &[&str] = &[
+    "pull_stream", "pull_value", "pull_to_beve_zst_file", "pull_to_beve_file", "pull_to_file", "pull_consume", "pull_to_vec",
+    "pull_to_file_trailer_verified", "pull_typed_slice", "pull_complex_slice", "pull_value_async", "pull_typed_slice_async",
+    "pull_complex_slice_async", "pull_consume_async", "pull_to_file_async", "pull_to_file_verified_async", "pull_to_vec_async",
+    "pull_to_file_trailer_verified_async", "with_value_stream", "with_typed_value_stream", "with_complex_value_stream",
+    "with_reader_stream", "with_writer_stream",
+];
+/// … and those it knows and does not call itself, with the reason
+const NOT_DRIVEN_BECAUSE: &[(&str, &str)] = &[
+    ("svs_call", "AsyncSvsClient transport method: every async pull goes through it (AsyncClient and WebSocketClient impls are both run)"),
+    ("svs_notify", "AsyncSvsClient transport method: the best-effort cancel of every async pull"),
+];
+
+/// A public function of the anchored file that is neither driven nor known is reported, never silent.
+fn entry_point_audit(out: &mut Out) -> Vec<String> {
+    let mut missing = vec![];
+    for name in source_entry_points() {
+        if !DRIVEN.contains(&name.as_str()) && !NOT_DRIVEN_BECAUSE.iter().any(|(n, _)| *n == name) {
+            out.count(&format!("NOT_DRIVEN.{name}"));
+            missing.push(name);
+        }
+    }
+    out.extra.insert("not_driven".into(), serde_json::json!(missing));
+    out.extra.insert("driven_entry_points".into(), serde_json::json!(DRIVEN.len()));
+    if !missing.is_empty() {
+        eprintln!("commit: public entry points of value_stream.rs NOT DRIVEN by fam_commit (add them to DRIVEN or NOT_DRIVEN_BECAUSE): {missing:?}");
+    }
+    missing
+}
+
+impl Ctx {
+    /// `storm <i> <obs>… SCRIPT :: …`: 12-14 async pulls in flight through ONE AsyncClient when one of them runs
+    /// into a connection cut. Which of the others got through is a matter of timing; each must be admissible on
+    /// its own: Ok with exactly its complete content, or Err with its destination as it was — and no temp file.
+    fn exec_storm(&mut self, out: &mut Out, idx: &str, scripts: &[Script]) {
+        self.exec_storm_on(out, idx, scripts, None)
+    }
+
+    /// `real`: (off-reader cap, outbound capacity, chunk size) of the crate's own WebSocketServer serving the
+    /// scripts' payloads from reader streams — the saturated-cap refusals, the bounded outbound queue and the
+    /// off-reader dispatch are other properties' paths; here only this property's clauses are checked on them.
+    fn exec_storm_on(&mut self, out: &mut Out, idx: &str, scripts: &[Script], real: Option<(usize, usize, usize)>) {
+        if should_stop(out) {
+            return;
+        }
+        let (base, dir) = self.fresh();
+        let _ = std::fs::remove_dir_all(&dir);
+        std::fs::create_dir_all(&dir).unwrap();
+        let dests: Vec<PathBuf> = scripts.iter().enumerate().map(|(i, sc)| prepare_named(&dir, &format!("o{i}.bin"), sc.dest)).collect();
+        let names: Vec<String> = (0..scripts.len()).map(|i| format!("{base}-{i}")).collect();
+        for (n, sc) in names.iter().zip(scripts) {
+            self.fake.register(n, sc, 0);
+        }
+        let (addr, rt) = (self.fake.addr, self.rt.clone());
+        let (sc2, d2, n2) = (scripts.to_vec(), dests.clone(), names.clone());
+        if let Some((cap, outcap, chunk)) = real {
+            let table: HashMap<String, Vec<u8>> = names.iter().cloned().zip(scripts.iter().map(|s| s.payload().unwrap_or_default())).collect();
+            let res = guarded(60, move || {
+                rt.block_on(async move {
+                    let opts = StreamOpts { chunk_bytes: chunk, compression: Compression::None, zstd_level: 3, session_depth: 1 };
+                    let router = Router::new().with_reader_stream(move |r: &str| table.get(r).map(|b| std::io::Cursor::new(b.clone())), opts);
+                    let server = repe::websocket_server::WebSocketServer::new(router).with_offreader_limit(cap).with_outbound_capacity(outcap);
+                    let Ok(l) = repe::websocket_server::WebSocketServer::listen("127.0.0.1:0").await else { return vec![false; sc2.len()] };
+                    let wsa = l.local_addr().unwrap();
+                    tokio::spawn(async move {
+                        let _ = server.serve_listener(l, "/").await;
+                    });
+                    let Ok(c) = repe::WebSocketClient::connect(&format!("ws://{wsa}/")).await else { return vec![false; sc2.len()] };
+                    let c = &c;
+                    let futs = sc2.iter().enumerate().map(|(i, sc)| {
+                        let (dest, name) = (d2[i].clone(), n2[i].clone());
+                        async move {
+                            match sc.puller {
+                                Puller::FileAsync => repe::pull_to_file_async(c, &name, &dest).await.map(|_| ()).is_ok(),
+                                Puller::VerifiedAsync => repe::pull_to_file_verified_async(c, &name, &dest, Vec::<u8>::new(), |_d: Vec<u8>| if sc.verify_ok { Ok(()) } else { Err(rej()) }).await.is_ok(),
+                                _ => repe::pull_to_file_trailer_verified_async(c, &name, &dest, sc.trailer, Vec::<u8>::new(), |_d: Vec<u8>, _t: &[u8]| if sc.verify_ok { Ok(()) } else { Err(rej()) }).await.is_ok(),
+                            }
+                        }
+                    });
+                    futures_util::future::join_all(futs).await
+                })
+            });
+            return self.finish_storm(out, idx, scripts, &dests, &names, res, &dir, Some(format!("{cap} {outcap} {chunk}")));
+        }
+        let res = guarded(60, move || {
+            rt.block_on(async move {
+                let Ok(c) = AsyncClient::connect(addr).await else { return vec![false; sc2.len()] };
+                let futs = sc2.iter().enumerate().map(|(i, sc)| {
+                    let (c, dest, name) = (c.clone(), d2[i].clone(), n2[i].clone());
+                    async move { pull_async_on(&c, sc, &name, &dest).await.is_ok() }
+                });
+                futures_util::future::join_all(futs).await
+            })
+        });
+        self.finish_storm(out, idx, scripts, &dests, &names, res, &dir, None)
+    }
+
+    #[allow(clippy::too_many_arguments)]
+    fn finish_storm(&mut self, out: &mut Out, idx: &str, scripts: &[Script], dests: &[PathBuf], names: &[String], res: Option<Vec<bool>>, dir: &Path, real: Option<String>) {
+        for n in names {
+            self.fake.unregister(n);
+        }
+        let head = match &real {
+            Some(r) => format!("wsstorm {idx} {r}"),
+            None => format!("storm {idx}"),
+        };
+        let words: Vec<String> = scripts.iter().map(|s| s.words()).collect();
+        let Some(res) = res else {
+            EXPIRIES.fetch_add(0, Ordering::Relaxed);
+            out.oracle_fail("commit.storm.call-never-returned", "pulls sharing one client did not all return within 60 s", &[format!("{} {}", head, words.join(" :: "))]);
+            return;
+        };
+        let mut obs = vec![];
+        let mut bad = vec![];
+        for (i, sc) in scripts.iter().enumerate() {
+            let st = dest_state(&dests[i], sc.dest);
+            let tmp = tmp_present(&dests[i]);
+            let complete = sc.expected_content();
+            let fine = !tmp && match (res[i], &st, &complete) {
+                (true, DestState::New(b), Some(c)) => b == c,
+                (true, DestState::Same, Some(c)) => sc.dest.base() == Dest::Old && c == OLD,
+                (false, DestState::Same, _) => true,
+                _ => false,
+            };
+            if !fine {
+                bad.push(format!("pull {i} ({}): returned {}, destination {}, temp file {}", sc.puller.name(), if res[i] { "Ok" } else { "Err" }, show_dest(&st), tmp));
+            }
+            obs.push(format!("{}|{}", if res[i] { "ok" } else { "err" }, show_dest(&st)));
+        }
+        let _ = std::fs::remove_dir_all(dir);
+        let op = format!("{} {} {}", head, obs.join(" "), words.join(" :: "));
+        if !bad.is_empty() {
+            out.oracle_fail("commit.storm.inadmissible-outcome", &bad.join("; "), &[op.clone()]);
+        }
+        out.count(&format!("{}.pulls.{}", if real.is_some() { "wsstorm" } else { "storm" }, scripts.len()));
+        out.add("storm.got-through", res.iter().filter(|x| **x).count() as u64);
+        out.case(&op, &format!("{idx} storm ok"), true);
+    }
+}
+
 /// A random presentation style; one in four also puts observer threads on the destination.
 fn rand_style(rng: &mut Rng) -> u64 {
     let mut st = rng.next() & 0x7fffff;
+    if (st >> 18) & 7 >= 6 {
+        st &= !(4 << 18); // the long mid-frame stalls (modes 6, 7) only in the cases made for them
+    }
     if rng.chance(1, 4) {
         st |= 1 << 23;
         st |= (rng.next() & 1) << 24;
@@ -1471,7 +1713,8 @@ impl Ctx {
             self.fake.unregister(n);
         }
         let Some(res) = res else {
-            out.count("par.did-not-finish");
+            EXPIRIES.fetch_add(1, Ordering::Relaxed);
+            out.oracle_fail("commit.par.call-never-returned", "concurrent async pulls did not all return within 60 s", &[op.clone()]);
             return;
         };
         let mut line = idx.to_string();
@@ -1555,7 +1798,7 @@ fn count_case(out: &mut Out, sc: &Script, kind: &str) {
         "verify-reject"
     } else if sc.puller.has_trailer() && sc.expected_content().is_none() && sc.dest != Dest::Dir {
         "short-trailer"
-    } else if sc.dest == Dest::NoParent {
+    } else if sc.dest == Dest::NoParent || sc.dest == Dest::Name250 {
         "create-refused"
     } else if sc.dest == Dest::Dir {
         "rename-refused"
@@ -1671,7 +1914,13 @@ impl Real {
 fn start_real(r: &Real, zstd: bool) -> SocketAddr {
     let opts = StreamOpts { chunk_bytes: r.chunk, compression: if zstd { Compression::Zstd } else { Compression::None }, zstd_level: r.level, session_depth: r.depth };
     let (payload, fail, panics, slow, kind) = (r.payload.clone(), r.fail, r.panics, r.slow, r.ekind);
-    let router = if r.kind == 2 {
+    let router = if r.kind == 3 {
+        let v: Vec<f64> = payload.iter().map(|b| *b as f64 / 3.0).collect();
+        Router::new().with_typed_value_stream(move |res: &str| (res == "blob").then(|| v.clone()), opts)
+    } else if r.kind == 4 {
+        let v: Vec<repe::Complex<f32>> = payload.iter().map(|b| repe::Complex { re: *b as f32, im: -(*b as f32) / 2.0 }).collect();
+        Router::new().with_complex_value_stream(move |res: &str| (res == "blob").then(|| v.clone()), opts)
+    } else if r.kind == 2 {
         Router::new().with_value_stream(move |res: &str| (res == "blob").then(|| PanicSeq { data: payload.clone(), at: fail }), opts)
     } else if r.kind == 1 {
         Router::new().with_writer_stream(
@@ -1712,6 +1961,18 @@ fn start_real(r: &Real, zstd: bool) -> SocketAddr {
 /// What the client of a real server sees (C09's sequencing: full chunks, one-chunk lookahead, a
 /// failure replaces the chunk that would have been delivered when it is noticed).
 fn real_wire(r: &Real, zstd: bool) -> (Vec<Resp>, Dec) {
+    if r.kind == 3 || r.kind == 4 {
+        // bulk numeric producers cannot fail: the stream is the typed / complex array encoding
+        let mut enc = vec![];
+        if r.kind == 3 {
+            let v: Vec<f64> = r.payload.iter().map(|b| *b as f64 / 3.0).collect();
+            beve::to_writer_typed_slice(&mut enc, &v).expect("encode");
+        } else {
+            let v: Vec<repe::Complex<f32>> = r.payload.iter().map(|b| repe::Complex { re: *b as f32, im: -(*b as f32) / 2.0 }).collect();
+            beve::to_writer_complex_slice(&mut enc, &v).expect("encode");
+        }
+        return real_wire(&Real { kind: 0, payload: enc, fail: None, ..r.clone() }, zstd);
+    }
     if r.kind == 0 && !r.panics && r.kind_is_transient() && r.fail.is_some() {
         return real_wire(&Real { fail: None, ..r.clone() }, zstd);
     }
@@ -1757,7 +2018,7 @@ impl Ctx {
         let op = format!(
             "real {} {} {} {} {} {} {}",
             idx,
-            format!("{}@l{}{}", ["reader", "writer", "value"][r.kind as usize], r.level, if r.slow { "@slow" } else { "" }),
+            format!("{}@l{}{}", ["reader", "writer", "value", "typed", "complex"][r.kind as usize], r.level, if r.slow { "@slow" } else { "" }),
             r.chunk,
             r.fail.map(|n| format!("{}{}{}", if r.panics { "p" } else { "" }, n, if r.panics || r.ekind == std::io::ErrorKind::Other { String::new() } else { format!("@{}", kind_name(r.ekind)) })).unwrap_or("-".into()),
             r.depth,
@@ -1767,6 +2028,9 @@ impl Ctx {
         out.begin(&op);
         let addr = start_real(r, sc.zstd);
         let o = self.run_inproc(sc, addr, "blob");
+        if self.last_hung {
+            out.oracle_fail(&format!("commit.{}.call-never-returned", sc.puller.name()), "the producer ended (or failed), yet the pull did not return within its watchdog", &[op.clone()]);
+        }
         oracles(out, sc, &o, &op);
         count_case(out, sc, "real");
         out.case(&op, &obs_line(idx, sc, &o), nontrivial(sc) || sc.zstd);
@@ -1966,6 +2230,10 @@ impl Ctx {
         self.fake.register(&name, sc, 0);
         let r = self.run_child(sc, &name, &dest, None, true);
         self.fake.unregister(&name);
+        if r.timed_out {
+            EXPIRIES.fetch_add(1, Ordering::Relaxed);
+            out.oracle_fail(&format!("commit.{}.call-never-returned", sc.puller.name()), "the traced pulling child did not finish within 60 s", &[format!("trace {} {}", idx, sc.words())]);
+        }
         if r.timed_out || r.ret.is_none() {
             out.count("trace.child-did-not-finish");
             let _ = std::fs::remove_dir_all(&dir);
@@ -2104,12 +2372,14 @@ impl Ctx {
         let (name, _) = self.fresh();
         self.fake.register(&name, sc, 0);
         let addr = self.fake.addr;
-        let rt = &self.rt;
+        let rt = self.rt.clone();
+        let (name_c, base_s) = (name.clone(), base.to_string());
         // every mode ends in "the encoded bytes of what was returned"
         let enc_f64 = |v: &Vec<f64>| { let mut b = vec![]; let _ = beve::to_writer_typed_slice(&mut b, v); b };
         let enc_cpx = |v: &Vec<repe::Complex<f32>>| { let mut b = vec![]; let _ = beve::to_writer_complex_slice(&mut b, v); b };
         let read_all = |r: &mut dyn Read| -> Result<Vec<u8>, RepeError> { let mut b = vec![]; r.read_to_end(&mut b)?; Ok(b) };
-        let call = || -> Result<Vec<u8>, RepeError> {
+        let call = move || -> Result<Vec<u8>, RepeError> {
+            let (name, base) = (name_c, base_s.as_str());
             if asyn {
                 let n = name.clone();
                 rt.block_on(async move {
@@ -2138,8 +2408,12 @@ impl Ctx {
                 }
             }
         };
-        let r = catch(call);
+        let r = guarded(bound_for(sc), move || catch(call));
         self.fake.unregister(&name);
+        let Some(r) = r else {
+            out.oracle_fail(&format!("commit.value.{mode}.call-never-returned"), "the peer answered every request (or closed), yet the value pull did not return within its watchdog", &[op.clone()]);
+            return;
+        };
         let to_end = matches!(base, "vec" | "consume" | "consumeerr" | "consumepanic"); // no format constraint, reads to EOF
         let whole = sc.open == Open::Ok && (sc.beve || to_end) && sc.payload().is_some();
         let m = mode;
@@ -2265,10 +2539,35 @@ fn dec_for(sc: &Script) -> Dec {
 
 static T0: std::sync::OnceLock<Instant> = std::sync::OnceLock::new();
 
+/// calls into the code under test that never came back (abandoned on their threads)
+static EXPIRIES: AtomicU64 = AtomicU64::new(0);
+
+/// Run one call into the code under test on its own thread under a watchdog. `None` = it did not return
+/// within `secs` (the thread is abandoned): where the peer answered everything the pull must end — with a
+/// result or an error — so that is an oracle failure at the call site; after three the run stops.
+fn guarded<T: Send + 'static>(secs: u64, f: impl FnOnce() -> T + Send + 'static) -> Option<T> {
+    let (tx, rx) = std::sync::mpsc::channel();
+    std::thread::spawn(move || {
+        let _ = tx.send(f());
+    });
+    match rx.recv_timeout(Duration::from_secs(secs)) {
+        Ok(v) => Some(v),
+        Err(_) => {
+            EXPIRIES.fetch_add(1, Ordering::Relaxed);
+            None
+        }
+    }
+}
+
+/// watchdog for one scripted pull: generous, plus three times what the script itself stalls
+fn bound_for(sc: &Script) -> u64 {
+    25 + 3 * sc.wire.iter().map(|r| if let Resp::Stall(ms) = r { ms / 1000 + 1 } else { 0 }).sum::<u64>()
+}
+
 /// On a broken tree: enough failing inputs, or some and a minute gone — stop generating (the verdict needs a
 /// replay, not a census). Never true on a tree that passes.
 fn should_stop(out: &Out) -> bool {
-    out.oracle_failures >= 12 || (out.oracle_failures >= 1 && T0.get_or_init(Instant::now).elapsed() > Duration::from_secs(40))
+    EXPIRIES.load(Ordering::Relaxed) >= 3 || out.oracle_failures >= 12 || (out.oracle_failures >= 1 && T0.get_or_init(Instant::now).elapsed() > Duration::from_secs(40))
 }
 
 fn gen_and_run(args: &Args, out: &mut Out, ctx: &mut Ctx) {
@@ -2904,6 +3203,129 @@ fn gen_and_run(args: &Args, out: &mut Out, ctx: &mut Ctx) {
         return;
     }
     if std::env::var("FAM_COMMIT_TIMING").is_ok() { eprintln!("[t] {:>6} ms  before C", T0.get_or_init(Instant::now).elapsed().as_millis()); }
+    // (N3) third audit: error variants, positive siblings, longer stalls, many pulls on one client
+    {
+        let vp = [Puller::Trailer, Puller::VerifiedAsync, Puller::TrailerAsync];
+        // every RepeError variant from a rejecting verify
+        for v in 0..39u64 {
+            let p = vp[v as usize / 13];
+            let v = v % 13;
+            let logical: Vec<u8> = rng.bytes(30);
+            let mut sc = make_script(p, v % 4 == 0, &logical, &[11], None, false);
+            sc.trailer = if p.has_trailer() { 3 } else { 0 };
+            sc.verify_ok = false;
+            sc.style = (v + 1) << 31;
+            sc.dest = if v % 2 == 0 { Dest::Old } else { Dest::None };
+            ctx.exec_script(out, &next("n"), &sc, 0);
+        }
+        // every error code a peer can answer `next` with (and some that are none)
+        for e in 1..=32u64 {
+            // each code once on a blocking and once on an async puller
+            let p = if e <= 16 { [Puller::File, Puller::Trailer, Puller::Beve][e as usize % 3] } else { [Puller::FileAsync, Puller::TrailerAsync, Puller::VerifiedAsync][e as usize % 3] };
+            let e = (e - 1) % 16 + 1;
+            let zstd = !p.tags_ok(false, true);
+            let logical: Vec<u8> = rng.bytes(30);
+            let mut sc = make_script(p, zstd, &logical, &[9], Some((1 + (e as usize % 2), Resp::Error)), false);
+            sc.trailer = if p.has_trailer() { 3 } else { 0 };
+            sc.style = e << 35;
+            sc.dest = if e % 2 == 0 { Dest::Old } else { Dest::None };
+            ctx.exec_script(out, &next("n"), &sc, 0);
+        }
+        // the longest destination name whose temp sibling still fits NAME_MAX (works), and one past it (cannot
+        // even be created: nothing is touched)
+        for &p in &PULLERS {
+            let zstd = !p.tags_ok(false, true);
+            for (dest, fault) in [(Dest::Name247, None), (Dest::Name247, Some((1usize, Resp::Cut))), (Dest::Name250, None)] {
+                let logical: Vec<u8> = rng.bytes(25);
+                let mut sc = make_script(p, zstd, &logical, &[10], fault, false);
+                sc.trailer = if p.has_trailer() { 2 } else { 0 };
+                sc.dest = dest;
+                ctx.exec_script(out, &next("n"), &sc, 0);
+            }
+        }
+        // stalls longer than plausible internal timers: async pulls side by side (wall time = the longest), and
+        // one blocking pull per length; mid-frame stalls (the frame stops inside header / query / body)
+        let stall_set: &[u64] = if thorough { &[300, 600, 1100, 2500, 5500] } else { &[300, 600, 1100] };
+        let mut par_scripts = vec![];
+        for (j, &ms) in stall_set.iter().enumerate() {
+            let p = [Puller::FileAsync, Puller::TrailerAsync, Puller::VerifiedAsync][j % 3];
+            let logical: Vec<u8> = rng.bytes(50);
+            let mut sc = make_script(p, false, &logical, &[17], if j % 3 == 2 { Some((2, Resp::Error)) } else { None }, false);
+            sc.wire.insert(1 + j % 2, Resp::Stall(ms));
+            sc.trailer = if p.has_trailer() { 4 } else { 0 };
+            sc.dest = if j % 2 == 0 { Dest::Old } else { Dest::None };
+            par_scripts.push(sc);
+        }
+        ctx.exec_par(out, &next("l"), 4, false, &par_scripts);
+        for (j, &ms) in stall_set.iter().enumerate().filter(|(_, ms)| **ms >= 600 && **ms <= 2500) {
+            let p = [Puller::File, Puller::Trailer][j % 2];
+            let logical: Vec<u8> = rng.bytes(40);
+            let mut sc = make_script(p, false, &logical, &[15], None, j % 2 == 0);
+            sc.wire.insert(1, Resp::Stall(ms));
+            sc.trailer = if p.has_trailer() { 4 } else { 0 };
+            sc.dest = Dest::Old;
+            ctx.exec_script(out, &next("n"), &sc, 0);
+        }
+        for (j, mode) in [6u64, 7, 6].into_iter().enumerate() {
+            let p = [Puller::File, Puller::FileAsync, Puller::TrailerAsync][j];
+            let logical: Vec<u8> = rng.bytes(60);
+            let mut sc = make_script(p, false, &logical, &[30], None, false);
+            sc.trailer = if p.has_trailer() { 4 } else { 0 };
+            sc.style = mode << 18;
+            sc.dest = Dest::Old;
+            ctx.exec_script(out, &next("n"), &sc, 0);
+        }
+        // 13 pulls in flight through one client: all complete; then one of them runs into a cut
+        for cut in [false, true, true] {
+            let mut scripts = vec![];
+            for i in 0..13usize {
+                let p = [Puller::FileAsync, Puller::TrailerAsync, Puller::VerifiedAsync][i % 3];
+                let ln = 20 + 7 * ((i * 5) % 13);
+                let logical: Vec<u8> = rng.bytes(ln);
+                let fault = if cut && i == 7 { Some((1usize, Resp::Cut)) } else if i % 5 == 4 { Some((1usize, Resp::Error)) } else { None };
+                let mut sc = make_script(p, false, &logical, &[9], fault, false);
+                sc.trailer = if p.has_trailer() { 3 } else { 0 };
+                sc.verify_ok = i % 6 != 5;
+                sc.dest = if i % 2 == 0 { Dest::Old } else { Dest::None };
+                if cut && i != 7 && i % 2 == 0 {
+                    sc.wire.insert(1, Resp::Stall(20));
+                }
+                scripts.push(sc);
+            }
+            if cut {
+                ctx.exec_storm(out, &next("o"), &scripts);
+            } else {
+                ctx.exec_par(out, &next("l"), 4, true, &scripts);
+            }
+        }
+        // this property's clauses on other properties' paths: the crate's WebSocketServer with its off-reader cap
+        // saturated (cap 1, five pulls at once on one connection), a one-slot outbound queue, tiny chunks
+        for (cap, outcap, chunk, n) in [(1usize, 1usize, 4usize, 5usize), (2, 64, 16, 6), (64, 1, 1, 4)] {
+            let mut scripts = vec![];
+            for i in 0..n {
+                let p = [Puller::FileAsync, Puller::TrailerAsync, Puller::VerifiedAsync][i % 3];
+                let logical: Vec<u8> = rng.bytes(30 + 11 * i);
+                let mut sc = make_script(p, false, &logical, &[chunk], None, false);
+                sc.ws = true;
+                sc.trailer = if p.has_trailer() { 3 } else { 0 };
+                sc.verify_ok = i % 4 != 3;
+                sc.dest = if i % 2 == 0 { Dest::Old } else { Dest::None };
+                scripts.push(sc);
+            }
+            ctx.exec_storm_on(out, &next("u"), &scripts, Some((cap, outcap, chunk)));
+        }
+        // the bulk numeric producers (typed / complex arrays) behind the file pullers
+        for kind in [3u8, 4] {
+            for zstd in [false, true] {
+                let p = if zstd { Puller::Beve } else { *rng.pick(&[Puller::File, Puller::FileAsync]) };
+                let r = Real { kind, panics: false, chunk: 16, fail: None, depth: 2, payload: rng.bytes(21), level: 3, slow: false, ekind: std::io::ErrorKind::Other };
+                let (wire, dec) = real_wire(&r, zstd);
+                let sc = Script { puller: p, zstd, beve: true, open: Open::Ok, verify_ok: true, trailer: 0, dest: Dest::Old, dec, wire, wfault: None, sync_fault: false, ws: false, verify_panics: false, verify_kind: 0, dfault: None, via_ps: false, style: 0, wl: None };
+                ctx.exec_real(out, &next("r"), &r, &sc);
+            }
+        }
+    }
+
     // (C) the crate's own Server with failing reader / writer producers: failure after every chunk
     //     boundary +-1 byte
     let chunk = 16usize;
@@ -3207,6 +3629,28 @@ fn replay(ops: Vec<String>, out: &mut Out, ctx: &mut Ctx) {
                     }
                 }
             }
+            "storm" | "wsstorm" => {
+                let real = if w[0] == "wsstorm" && w.len() > 5 { Some((w[2].parse().unwrap_or(1), w[3].parse().unwrap_or(1), w[4].parse().unwrap_or(16))) } else { None };
+                let mut k = if real.is_some() { 5 } else { 2 };
+                while k < w.len() && (w[k].starts_with("ok|") || w[k].starts_with("err|")) {
+                    k += 1;
+                }
+                let mut steps = vec![];
+                let mut rest: Vec<String> = w[k..].iter().map(|x| x.to_string()).collect();
+                while !rest.is_empty() {
+                    let rw: Vec<&str> = rest.iter().map(|x| x.as_str()).collect();
+                    match Script::parse(&rw) {
+                        Some((sc, after)) => {
+                            steps.push(sc);
+                            rest = after;
+                        }
+                        None => break,
+                    }
+                }
+                if !steps.is_empty() {
+                    ctx.exec_storm_on(out, &idx, &steps, real);
+                }
+            }
             "par" => {
                 let mut steps = vec![];
                 let mut rest: Vec<String> = w[4..].iter().map(|x| x.to_string()).collect();
@@ -3275,7 +3719,7 @@ fn replay(ops: Vec<String>, out: &mut Out, ctx: &mut Ctx) {
             "real" => {
                 if w.len() > 7 {
                     if let Some((sc, _)) = Script::parse(&w[7..]) {
-                        let r = Real { level: w[2].split('@').find_map(|x| x.strip_prefix('l').and_then(|n| n.parse().ok())).unwrap_or(3), slow: w[2].contains("@slow"), kind: match w[2].split('@').next().unwrap_or("") { "writer" => 1, "value" => 2, _ => 0 }, panics: w[4].starts_with('p'), chunk: w[3].parse().unwrap_or(16), fail: w[4].trim_start_matches('p').split('@').next().and_then(|x| x.parse().ok()), ekind: w[4].split('@').nth(1).map(kind_of).unwrap_or(std::io::ErrorKind::Other), depth: w[5].parse().unwrap_or(4), payload: unhex(w[6]).unwrap_or_default() };
+                        let r = Real { level: w[2].split('@').find_map(|x| x.strip_prefix('l').and_then(|n| n.parse().ok())).unwrap_or(3), slow: w[2].contains("@slow"), kind: match w[2].split('@').next().unwrap_or("") { "writer" => 1, "value" => 2, "typed" => 3, "complex" => 4, _ => 0 }, panics: w[4].starts_with('p'), chunk: w[3].parse().unwrap_or(16), fail: w[4].trim_start_matches('p').split('@').next().and_then(|x| x.parse().ok()), ekind: w[4].split('@').nth(1).map(kind_of).unwrap_or(std::io::ErrorKind::Other), depth: w[5].parse().unwrap_or(4), payload: unhex(w[6]).unwrap_or_default() };
                         ctx.exec_real(out, &idx, &r, &sc);
                     }
                 }
@@ -3326,7 +3770,7 @@ fn main() {
     let _ = std::fs::remove_dir_all(&work);
     std::fs::create_dir_all(&work).unwrap();
     let mut ctx = Ctx {
-        rt: tokio::runtime::Builder::new_multi_thread().worker_threads(2).enable_all().build().unwrap(),
+        rt: Arc::new(tokio::runtime::Builder::new_multi_thread().worker_threads(2).enable_all().build().unwrap()),
         fake: start_fake(),
         work: work.clone(),
         exe: std::env::current_exe().expect("current exe"),
@@ -3334,10 +3778,12 @@ fn main() {
         strace_ok: strace_available(),
         last_watch: None,
         watch_reads: 0,
+        last_hung: false,
         syncfault_ok: fsync_on_devnull_fails(),
         anywrite: args.thorough(),
     };
     ctx.fake.start_ws(&ctx.rt);
+    entry_point_audit(&mut out);
     out.extra.insert("strace".into(), serde_json::json!(ctx.strace_ok));
     match args.replay_ops() {
         Some(ops) => replay(ops, &mut out, &mut ctx),
